@@ -18,5 +18,10 @@ cd /repo
 BASE=$(git merge-base main fix-$P)
 N=$(git rev-list --count $BASE..fix-$P)
 echo "cherry-picking $N fix commits of $P"
-if [ "$N" != "0" ]; then git cherry-pick --empty=drop $BASE..fix-$P || { echo "CHERRY-PICK CONFLICT in /repo"; exit 1; }; fi
+for c in $(git rev-list --reverse $BASE..fix-$P); do
+  if git cherry-pick $c >/dev/null 2>&1; then :; else
+    if git diff --quiet && git diff --cached --quiet; then echo "  (skipping redundant $(git log --oneline -1 $c))"; git cherry-pick --skip;
+    else echo "CHERRY-PICK CONFLICT in /repo at $(git log --oneline -1 $c)"; git status --short | grep -v '^??' | head; exit 1; fi
+  fi
+done
 git log --oneline -$((N+1)) | cat
